@@ -33,7 +33,7 @@ def parse_loader(data: np.array) -> np.array:
 
         if len(counts) == 1:
             logger.warning("Parsed data only have a single label.")
-        if len(counts) != (np.max(Y) + 1):
+        if len(counts) != (np.max(Y) + 1) or np.min(Y) < 0:
             raise e.ValueError(
                 "Parsed data should have sequential labels, e.g., 0, 1, ..., n-1"
             )
